@@ -213,6 +213,8 @@ SEQS = [
     # both programs define the same label names, in the opposite order, with compressible instructions in between
     ('compress_both_reordered_labels', 'loop:\naddi x8, x8, K1\ndone:\nbnez x8 loop\nj done', dict(K1=8),
      'done:\naddi x8, x8, K2\nloop:\naddi x9, x9, 1\nbnez x8 loop\nj done\ndw loop', dict(K2=8)),
+    # a label of the first program has the name of a constant that the second program defines and loads with li
+    ('label_then_const_li', 'size:\naddi x0, x0, 0\nj size\ndw K1', dict(K1=9), 'size = K2\nli x10, size\ndw size\naddi x0, x0, 0', dict(K2=34)),
     ('compress_both_label_then_const', 'addi x8, x8, N\nN:\nj N', dict(K1=4), 'N = K2\naddi x8, x8, N\naddi sp, sp, N', dict(K2=7)),
 ]
 
